@@ -58,7 +58,7 @@ var props = []propSpec{
 			{Name: "HarnessSuiteFixtures", Witnesses: 400, Bounds: "differential validation of the executor and of the reference evaluator: the 260 labelled cases of /repo/fixtures/jsonschema_suite that involve no $ref / id / format, each run concretely through the engine (implementation == label, reference == label) and every one of them replayed natively"},
 			{Name: "HarnessC01Type", Bounds: "type keyword: 1 type, 2 types, type+enum[1 scalar] x instance in {null, symbolic bool, fully symbolic float64 |x|<=2^53, 4 strings, [], {}, [pick]}"},
 			{Name: "HarnessC01Numeric", Bounds: "minimum/maximum/exclusive* with fully symbolic float64 bounds and instance (|x|<=2^53); type absent/number with both bounds, type integer without bounds", BoundsThorough: "as quick plus type integer with both bounds"},
-			{Name: "HarnessC01MultipleOfEnum", Bounds: "multipleOf in {0.5,1,2,3}, numeric enum of 1-2 values, instance from 10 picked numbers or a scalar"},
+			{Name: "HarnessC01MultipleOfEnum", Bounds: "multipleOf in {0.5,1,2,3}, numeric enum of 1-2 values, type integer (alone or in a list) next to a maximum / minimum / multipleOf picked among integral and non-integral values; instance from 10 picked numbers or a scalar"},
 			{Name: "HarnessC01String", Bounds: "type string?, min/maxLength picks 0..3, pattern in {none,^a,b$}, format date through the registry stub (known and valid symbolic); instances: 5 strings incl. non-ASCII, or a scalar"},
 			{Name: "HarnessC01Array", Bounds: "items none / single L3 / tuple of 1-2 L3; additionalItems absent/true/false/L3; min/maxItems picks 0..3; uniqueItems; arrays of 0-3 elements from {pick number, \"a\"}", BoundsThorough: "tuples up to 3, arrays of 0-4 elements from {pick number, \"a\", null}, type keyword free"},
 			{Name: "HarnessC01UniqueComposite", Bounds: "uniqueItems over 2 composite items drawn from 10 arrays/objects whose textual renderings coincide pairwise, plus an optional scalar"},
